@@ -14,6 +14,7 @@ import (
 	minttypes "github.com/cosmos/cosmos-sdk/x/mint/types"
 	distrtypes "github.com/cosmos/cosmos-sdk/x/distribution/types"
 	slashingtypes "github.com/cosmos/cosmos-sdk/x/slashing/types"
+	stakingtypes "github.com/cosmos/cosmos-sdk/x/staking/types"
 
 	"cosmossdk.io/math"
 
@@ -221,7 +222,7 @@ func setupOracle(e *Env, o core.RunOpts) error {
 	e.W = w
 	w.F = faults
 	act := &OracleActor{MaxOpen: e.Ch.Range("cfg.oracle.maxopen", 1, 6), ReqRate: 150 + e.Ch.Intn("cfg.oracle.reqrate", 500),
-		Scripts: []int{scriptEcho, scriptSimple, scriptNoRet, scriptTrap, scriptBadPre, scriptNoRaw, scriptEmpty}, NumDS: len(dss),
+		Scripts: []int{scriptEcho, scriptSimple, scriptNoRet, scriptTrap, scriptBadPre, scriptNoRaw, scriptEmpty, scriptProbe}, NumDS: len(dss),
 		ActivateP: 1000, Byz: e.Ch.Intn("cfg.oracle.byz", 400), ReactivateP: 100}
 	if e.Ch.Bool("cfg.oracle.someinactive", 300) {
 		act.ActivateP = 700
@@ -238,6 +239,13 @@ func setupOracle(e *Env, o core.RunOpts) error {
 			all := sdk.NewCoins(sdk.NewInt64Coin("uband", 1_000_000_000_000), sdk.NewInt64Coin("uusd", 1_000_000_000))
 			msg := banktypes.NewMsgSend(w.Users[i].Addr, w.Users[0].Addr, all.Sub(keep...))
 			w.Submit(&world.Intent{Signer: w.Users[i], Msgs: []sdk.Msg{msg}, Tag: "drain", Meta: &bankMeta{Msg: msg}})
+		}
+		if o.Prop == "C13" && e.Ch.Bool("cfg.oracle.dsedit", 600) {
+			var trs []*world.Account
+			for i := 0; i < 3; i++ {
+				trs = append(trs, world.NewAccount(o.Seed, fmt.Sprintf("treasury%d", i)))
+			}
+			e.Actors = append(e.Actors, &DSEditor{Owner: w.Users[0], Fees: feeTable, Treasuries: trs, N: len(dss), Rate: 40 + e.Ch.Intn("cfg.oracle.dsedit.rate", 120)})
 		}
 	}
 	if (o.Prop == "C09" || o.Prop == "C01") && e.Ch.Bool("cfg.oracle.samplingchurn", 400) {
@@ -448,6 +456,18 @@ func setupFeeds(e *Env, o core.RunOpts) error {
 		dss = append(dss, dsSpec{Fee: sdk.NewCoins(), Treasury: treas, Exec: []byte(fmt.Sprintf("#!/bin/sh\necho %d", i))})
 	}
 	cfg.GenesisMods = append(cfg.GenesisMods, govGenesis(4*time.Second), quietEconomy(), oracleGenesis(e, op, dss), feedsGenesis(fp, allowed))
+	extraVal := pushOver < 0 && e.Ch.Bool("cfg.stake.extraval", 350)
+	if extraVal {
+		// the active set is full with the genesis validators: a validator created during the run stays unbonded
+		n := uint32(len(tokens))
+		cfg.GenesisMods = append(cfg.GenesisMods, func(w *world.World, gs band.GenesisState) {
+			cdc := w.Replicas[0].App.AppCodec()
+			var sg stakingtypes.GenesisState
+			cdc.MustUnmarshalJSON(gs[stakingtypes.ModuleName], &sg)
+			sg.Params.MaxValidators = n
+			gs[stakingtypes.ModuleName] = cdc.MustMarshalJSON(&sg)
+		})
+	}
 	w, err := world.New(e.Ch, e.Log, e.St, cfg, o.Scratch)
 	if err != nil {
 		return err
@@ -459,13 +479,16 @@ func setupFeeds(e *Env, o core.RunOpts) error {
 	ss.Voters = voters
 	e.Shared["stake.shadow"] = ss
 	e.Shared["feeds.shadow"] = NewFeedsShadow()
-	signals := []string{"CS:BTC-USD", "CS:ETH-USD", "CS:BAND-USD", "X", "CS:A-VERY-LONG-SIGNAL-ID-0123456789", "CS:SOL-USD", "CS:ATOM-USD", "s8"}
+	signals := []string{"CS:BTC-USD", "CS:ETH-USD", "CS:BAND-USD", "X", "CS:A-32-BYTE-SIGNAL-ID-012345678", "CS:A-32-BYTE-SIGNAL-ID-012345678X", "CS:SOL-USD", "CS:ATOM-USD", "s8"}
 	lazy := map[string]int{}
 	for _, v := range w.Vals {
 		lazy[v.Val.String()] = []int{0, 0, 100, 400}[e.Ch.Intn("cfg.feeder.lazy", 4)]
 	}
 	oa := &OracleActor{MaxOpen: 3, ReqRate: e.Ch.Intn("cfg.feeds.reqrate", 250), Scripts: []int{scriptEcho, scriptSimple}, NumDS: len(dss), ActivateP: 1000, Byz: 0, ReactivateP: 250}
 	sa := &StakeActor{Voters: voters, Rate: 150 + e.Ch.Intn("cfg.stake.rate", 500), Denoms: []string{"uusd", "uatom", "uband"}, VaultKeys: []string{"vaultA", "vaultB"}, Whale: whale}
+	if extraVal {
+		sa.ExtraOwner = w.Users[6]
+	}
 	if o.Prop == "C16" || os.Getenv("VERIF_DEBUG_MODULEOPS") != "" {
 		sa.ModuleP = 60 + e.Ch.Intn("cfg.stake.module", 200)
 	}
@@ -554,10 +577,10 @@ func setupTunnel(e *Env, o core.RunOpts) error {
 	e.Shared["stake.shadow"] = ss
 	e.Shared["feeds.shadow"] = NewFeedsShadow()
 	e.Shared["tunnel.shadow"] = NewTunnelShadow(e, tup, tunnelUsers)
-	signals := []string{"CS:BTC-USD", "CS:ETH-USD", "CS:BAND-USD", "X", "CS:A-VERY-LONG-SIGNAL-ID-0123456789", "CS:SOL-USD"}
+	signals := []string{"CS:BTC-USD", "CS:ETH-USD", "CS:BAND-USD", "X", "CS:A-32-BYTE-SIGNAL-ID-012345678", "CS:A-32-BYTE-SIGNAL-ID-012345678X", "CS:SOL-USD"}
 	if !e.Ch.Bool("cfg.signals.long", 250) {
 		// an id longer than 32 bytes cannot be ABI-encoded: every TSS packet carrying it fails; kept in a quarter of the runs only
-		signals[4] = "CS:ATOM-USD"
+		signals[5] = "CS:ATOM-USD"
 	}
 	lazy := map[string]int{}
 	for _, v := range w.Vals {
@@ -781,17 +804,17 @@ func setupFuzz(e *Env, o core.RunOpts) error {
 	e.Shared["gov"] = gov
 	dkg := &DKGActor{Pool: pool, DeviateP: 100, SilentP: 20, NonMemberP: 30}
 	e.Shared["dkg.actor"] = dkg
-	signals := []string{"CS:BTC-USD", "CS:ETH-USD", "CS:BAND-USD", "X", "CS:A-VERY-LONG-SIGNAL-ID-0123456789", "CS:SOL-USD"}
+	signals := []string{"CS:BTC-USD", "CS:ETH-USD", "CS:BAND-USD", "X", "CS:A-32-BYTE-SIGNAL-ID-012345678", "CS:A-32-BYTE-SIGNAL-ID-012345678X", "CS:SOL-USD"}
 	if !e.Ch.Bool("cfg.signals.long", 250) {
 		// an id longer than 32 bytes cannot be ABI-encoded: every TSS packet carrying it fails; kept in a quarter of the runs only
-		signals[4] = "CS:ATOM-USD"
+		signals[5] = "CS:ATOM-USD"
 	}
 	lazy := map[string]int{}
 	for _, v := range w.Vals {
 		lazy[v.Val.String()] = []int{0, 100, 400}[e.Ch.Intn("cfg.feeder.lazy", 3)]
 	}
 	e.Actors = append(e.Actors, gov,
-		&OracleActor{MaxOpen: 3, ReqRate: 200, Scripts: []int{scriptEcho, scriptSimple, scriptNoRet, scriptTrap, scriptBadPre, scriptNoRaw, scriptEmpty}, NumDS: len(dss), ActivateP: 900, ReactivateP: 250, Byz: 150,
+		&OracleActor{MaxOpen: 3, ReqRate: 200, Scripts: []int{scriptEcho, scriptSimple, scriptNoRet, scriptTrap, scriptBadPre, scriptNoRaw, scriptEmpty, scriptProbe}, NumDS: len(dss), ActivateP: 900, ReactivateP: 250, Byz: 150,
 			TSSEncoder: true, Requesters: voters, FeeLimit: sdk.NewCoins(sdk.NewInt64Coin("uband", 1000), sdk.NewInt64Coin("uusd", 1000))},
 		&StakeActor{Voters: voters, Rate: 200, Denoms: []string{"uusd", "uatom", "uband"}, VaultKeys: []string{"vaultA"}},
 		&VoteActor{Voters: voters, Signals: signals, Rate: 250, WrapP: 60},
